@@ -3,7 +3,7 @@ import json, concurrent.futures
 import vlib, C16_syms
 
 RANGE = {"u8": (0, 255), "i8": (-128, 127), "u16": (0, 65535), "i16": (-32768, 32767)}
-TUS = {"PT_A": "th", "PT_B": "ot", "PT_C": "mo", "PT_D": "me"}
+TUS = {"PT_A": "th", "PT_B": "ot", "PT_C": "mo", "PT_D": "me", "PT_E": "ad"}
 KINDS = ["bin", "binmax", "tt", "tz"]
 
 def vals(r, ch, n, style):
@@ -111,12 +111,45 @@ def gen_ops(ctx):
         ops.append("me rgb8 %d %d %d | %s" % (w, h, r.choice([1, 3, 5]), " | ".join(plane(vals(r, "u8", w * h, "rand")) for _ in range(3))))
     return ops
 
+def gen_adaptive(ctx, binary):
+    """threshold_adaptive: two phases.  Phase 1 asks the real convolution (the very call threshold_adaptive makes) for the local
+    threshold surface T of each source (op adT).  Phase 2 ops carry that T as the CLAIMED surface: the real threshold_adaptive
+    recomputes its own, the model applies the translated functor to (src, T), the judge checks T against the exact box mean /
+    window bounds and the destination against the documented comparison -- so a defect in the kernel, its centre, the
+    method dispatch or the comparison shows up as a judged failure with a self-contained replay line."""
+    r, th = ctx.rng, ctx.thorough()
+    pre = []
+    M = 7 if th else 5
+    for ch in ("u8", "u16"):
+        for meth in ("mean", "gauss"):
+            for k in ((1, 3, 5, 7, 9) if th else (1, 3, 5, 7)):
+                for w in range(1, M + 1):
+                    for h in range(1, M + 1):
+                        if not th and ch == "u16" and (w + h + k) % 2: continue
+                        style = r.choice(["rand", "rand", "two", "const", "narrow", "edge"])
+                        pre.append((ch, meth, w, h, k, vals(r, ch, w * h, style)))
+    lines = ["adT %s %s %d %d %d | %s" % (ch, meth, w, h, k, plane(px)) for ch, meth, w, h, k, px in pre]
+    obs = vlib.run_harness(ctx, binary, lines)
+    ops = []
+    for (ch, meth, w, h, k, px), o in zip(pre, obs):
+        lo, hi = RANGE[ch]
+        head, _, t = o.partition(":")
+        if head.split() != [str(w), str(h)]:          # the convolution itself failed: keep the op, with an empty surface, so it is judged
+            t = " ".join(["0"] * (w * h))
+        # constants: 0, small, larger than typical thresholds (threshold - constant < 0: must not wrap), range end
+        cst = r.choice([0, 0, 1, 2, 5, r.range(0, 40), hi if r.chance(1, 12) else 3])
+        mx = r.choice([hi, hi, r.range(1, hi)])
+        for d in (("reg", "inv") if (th or k <= 3) else (r.choice(["reg", "inv"]),)):
+            ops.append("ad %s %s %s %d %d %d %d %d | %s | %s" % (ch, meth, d, w, h, k, cst, mx, plane(px), " ".join(t.split())))
+    return ops
+
 def nontrivial(op):
     w = op.split(None, 8)
     if w[0] == "th": return int(w[4]) * int(w[5]) > 0
     if w[0] == "ot": return int(w[3]) * int(w[4]) > 1
     if w[0] == "mo": return int(w[4]) >= 3 and int(w[7]) >= 1
     if w[0] == "me": return int(w[4]) >= 3
+    if w[0] == "ad": return int(w[6]) >= 3 and int(w[4]) * int(w[5]) > 1
     return False
 
 ASSUME = [
@@ -124,6 +157,7 @@ ASSUME = [
     "std::nth_element is modelled by its specification (element size/2 of the sorted window); std::max/std::min by max/min",
     "multi-channel pixels are processed channel by channel (nth_channel_view / static_transform): observed through rgb8 / rgb16 / planar rgb8, not proven",
     "morphology and median are exercised on non-empty images only (their implementations start with nth_channel_view / extend_boundary, which are not defined for empty views); thresholds and Otsu include all empty shapes",
+    "threshold_adaptive: the local threshold surface is computed in float (1/k weights, Gaussian weights) and truncated to the channel type; the judge checks it against exact-integer bounds (mean: S - 2k^2 <= k^2 T <= S for the zero-padded box sum S; gaussian: window min - 1 <= T <= window max), not bit-exactly; the per-pixel comparison against (T - constant) is exact (translated functor, theorem C16_adaptive_functor)",
     "channel types: uint8, int8, uint16, int16 (the property's 8- and 16-bit, signed and unsigned); (source,result) pairs of the threshold functors: the four same-type pairs, u16->u8, u8->i16",
 ]
 
@@ -143,7 +177,9 @@ def run(ctx, ops=None):
     bins, errs = compile_all(ctx)
     for d, e in errs:
         ctx.broken.append(("harness", "compile " + d, e[-1500:])); ctx.log("harness %s does not compile:\n%s" % (d, e[-1500:]))
-    ops = ops or gen_ops(ctx)
+    if ops is None:
+        ops = gen_ops(ctx)
+        if "PT_E" in bins: ops += gen_adaptive(ctx, bins["PT_E"])
     samples, kinds = [], {}
     for d, kind in sorted(TUS.items()):
         g = [o for o in ops if o.startswith(kind + " ")]
@@ -152,13 +188,13 @@ def run(ctx, ops=None):
         for i in (0, len(g) // 2, len(g) - 1):
             samples.append({"op": g[i][:160], "impl": impl[i][:160], "model": model[i][:160]})
     for o in ops:
-        w = o.split(None, 4); k = w[0] + ":" + (w[3] if w[0] == "th" else w[1]); kinds[k] = kinds.get(k, 0) + 1
+        w = o.split(None, 4); k = w[0] + ":" + (w[3] if w[0] == "th" else (w[1] + "/" + w[2]) if w[0] == "ad" else w[1]); kinds[k] = kinds.get(k, 0) + 1
     distinct = len({o for o in ops if nontrivial(o)})
     pixels = sum(int(o.split()[4]) * int(o.split()[5]) for o in ops if o.startswith("th "))
     return vlib.finish(ctx, "proof", obligations, discharged,
         rule="op lines: thresholds -- a 16x16 image of every 8-bit value x every threshold (complete for threshold_binary), stratified 16-bit and mixed-type pairs, empty views; "
              "Otsu -- 4 channel types x all shapes 0..N (incl. empty) x {constant, two-level, range-end, narrow, random} + rgb8/rgb16; morphology -- shapes 1..M^2 x kernel 1/3/5 x "
-             "random symmetric and asymmetric structuring elements, iterations 0..3; median -- shapes x odd kernels; non-trivial = non-empty image (th), > 1 pixel (ot), kernel >= 3 (mo, me); distinct op lines counted",
+             "random symmetric and asymmetric structuring elements, iterations 0..3; median -- shapes x odd kernels; non-trivial = non-empty image (th), > 1 pixel (ot), kernel >= 3 (mo, me, ad); distinct op lines counted",
         samples=samples, distinct_nontrivial=distinct, assumptions=ASSUME, trusted_base=vlib.TRUSTED_BASE,
         extra={"input_distribution": kinds, "threshold_pixel_evaluations": pixels,
                "exhaustive_domains": ["threshold_binary u8/i8: every threshold x every pixel value x both directions"]},
